@@ -167,6 +167,38 @@ def conditionalResp (v : Verdict) (etag : Option Text) : Resp :=
 def finish (r : Req) (x : Resp) : Resp :=
   if r.isHead then { x with body := .empty } else x
 
+/-- the ETag `tools.etags` ends up with for a response of the given status -/
+def etagOf (r : Req) (status : Nat) : Option Text :=
+  if r.etagsOn then effectiveEtag r.handlerEtag r.autotags status r.autoTag else r.handlerEtag
+
+/-- before_finalize: `tools.etags` (when on) may turn the response `ok etag` into 304 / 412 -/
+def etagPhase (r : Req) (status : Nat) (ok : Option Text → Resp) : Resp :=
+  let etag := etagOf r status
+  let v := if r.etagsOn then validateEtags etag status r.getHead r.im r.inm else .pass
+  match v with
+  | .pass => finish r (ok etag)
+  | .notModified => finish r (conditionalResp .notModified etag)
+  | .precondFailed => finish r (conditionalResp .precondFailed etag)
+
+def servedStatus : Served → Nat
+  | .whole .. => 200
+  | .unsat _ => 416
+  | _ => 206
+
+/-- the response for what `_serve_fileobj` prepared -/
+def servedResp (s : Served) (etag : Option Text) : Resp :=
+  match s with
+  | .whole _ clen body => ⟨200, none, some clen, etag, .bytes body⟩
+  | .single a b total clen body => ⟨206, some (some (a, b), total), some clen, etag, .bytes body⟩
+  | .multi ps => ⟨206, none, none, etag, .parts ps⟩
+  -- HTTPError(416): clean_headers keeps Content-Range for 416 only; ETag dropped
+  | .unsat total => ⟨416, some (none, total), none, none, .errorPage⟩
+
+/-- the response for a handler-generated body -/
+def plainResp (r : Req) (status : Nat) (etag : Option Text) : Resp :=
+  if noBodyStatus status then ⟨status, none, none, etag, .empty⟩
+  else ⟨status, none, some r.content.length, etag, .bytes r.content⟩
+
 def respond (r : Req) : Resp :=
   match handler r with
   | .raised v =>
@@ -174,29 +206,9 @@ def respond (r : Req) : Resp :=
     -- the status is 304 / 412, outside 2xx, and autotags needs status 200
     finish r (conditionalResp v r.handlerEtag)
   | .served (.unsat total) =>
-    -- HTTPError(416): clean_headers keeps Content-Range for 416 only; ETag dropped
-    finish r ⟨416, some (none, total), none, none, .errorPage⟩
-  | .served s =>
-    let status := match s with | .whole .. => 200 | _ => 206
-    let etag := if r.etagsOn then effectiveEtag r.handlerEtag r.autotags status r.autoTag
-                else r.handlerEtag
-    let v := if r.etagsOn then validateEtags etag status r.getHead r.im r.inm else .pass
-    match v with
-    | .pass =>
-      finish r (match s with
-        | .whole _ clen body => ⟨200, none, some clen, etag, .bytes body⟩
-        | .single a b total clen body => ⟨206, some (some (a, b), total), some clen, etag, .bytes body⟩
-        | .multi ps => ⟨206, none, none, etag, .parts ps⟩
-        | .unsat total => ⟨416, some (none, total), none, none, .errorPage⟩)
-    | v => finish r (conditionalResp v etag)
-  | .plain status =>
-    let etag := if r.etagsOn then effectiveEtag r.handlerEtag r.autotags status r.autoTag
-                else r.handlerEtag
-    let v := if r.etagsOn then validateEtags etag status r.getHead r.im r.inm else .pass
-    match v with
-    | .pass =>
-      finish r (if noBodyStatus status then ⟨status, none, none, etag, .empty⟩
-                else ⟨status, none, some r.content.length, etag, .bytes r.content⟩)
-    | v => finish r (conditionalResp v etag)
+    -- raised inside the handler: tools.etags sees status 416 and does nothing
+    finish r (servedResp (.unsat total) none)
+  | .served s => etagPhase r (servedStatus s) (servedResp s)
+  | .plain status => etagPhase r status (plainResp r status)
 
 end CpModel.Validators
